@@ -9,7 +9,7 @@ sfx=$1; jobs=${2:-5}; shift; [ $# -gt 0 ] && shift
 here=$(cd "$(dirname "$0")/.." && pwd)
 snap=${VERIF_SNAP:-/root/vsnap}
 mkdir -p "$snap" && rsync -a --delete --exclude .git "$here"/ "$snap"/
-out=/tmp/round-$sfx; mkdir -p "$out"
+out=${ROUND_OUT:-/tmp/round-$sfx}; mkdir -p "$out"
 neigh() {
   case $1 in
     C01) echo "C01 C06 C02 C16";; C02) echo "C02 C04";; C03) echo "C03 C04";; C04) echo "C04 C02";;
